@@ -5,9 +5,10 @@
    LZW: C03_lzw_codes (code level: the codes of ANY admissible factorisation of the data into phrases -- single bytes
    or dictionary entries, greedy or not, including the entry the decoder has not built yet -- decode to the data) and
    C03_lzw (bit level: a byte string carrying, most significant bit first and in the widths the decoder expects under
-   early change, clear-table, those codes, optionally end-of-data, decodes to the data).
+   early change, clear-table, those codes, optionally end-of-data, decodes to the data; C03_lzw_segments: any number of
+   such segments, each introduced by a clear-table code, as an encoder writes when its table is full).
    NOT PROVED HERE (covered by differential runs only, see evidence): the Flate stage (zlib is an oracle: in C03_chain
-   any stage only has to satisfy [stage_inverts]); LZW streams with further clear-table codes in the middle (sampled). *)
+   any stage only has to satisfy [stage_inverts]). *)
 From Coq Require Import ZArith List Bool.
 From PdfV Require Import Base.CV Base.Num Gen.FilterGen Model.Filters Model.FiltersRun
   Proofs.FilterProofs Proofs.A85Proofs Proofs.LZWProofs Proofs.LZWBits.
@@ -59,6 +60,11 @@ Theorem C03_lzw : forall data ws ks (eod : bool), Forall LZWBits.byte data ->
   lzwdecode data = FOk (List.concat ws).
 Proof. exact lzw_stream_decodes. Qed.
 
+Theorem C03_lzw_segments : forall data segs (eod : bool), Forall LZWBits.byte data -> Forall seg_ok segs ->
+  carries (mkB data 0 8) lzw_init (flat_map (fun seg => 256 :: snd seg) segs ++ (if eod then [257] else [])) ->
+  lzwdecode data = FOk (List.concat (flat_map fst segs)).
+Proof. exact lzw_segmented_stream_decodes. Qed.
+
 (* readbits takes the next w bits, most significant first, for every stream position *)
 Theorem C03_readbits : forall fuel b w v, wfb b -> 0 <= w <= blen b -> w <= (8 - bpos b) + 8 * (Z.of_nat fuel - 1) -> (1 <= fuel)%nat ->
   exists b', readbits fuel b w v = Some (v * 2 ^ w + top b w, b') /\ wfb b' /\ blen b' = blen b - w /\
@@ -99,6 +105,7 @@ Print Assumptions C03_tiff.
 Print Assumptions C03_chain.
 Print Assumptions C03_lzw_codes.
 Print Assumptions C03_lzw.
+Print Assumptions C03_lzw_segments.
 Print Assumptions C03_readbits.
 Print Assumptions C03_lzw_nonvacuous.
 Print Assumptions C03_nonvacuous.
